@@ -1,3 +1,134 @@
-import Econf.Numeric
+import Econf.Lemmas.NumLemmas
+import Econf.KeyFileOps
+
+/-!
+  C09 — typed getters interpret stored text faithfully or refuse, never a wrong value.
+  `Lit` is the literal grammar of DESIGN.md 5.7 (optional sign; decimal, octal with leading 0,
+  hexadecimal with 0x/0X; digits in either case; any number of digits), `Lit.val` its
+  mathematical value.
+-/
+
+set_option linter.unusedSimpArgs false
+
 namespace Econf
+
+theorem strtoVal_render (l : Lit) (h : l.body.WF) : strtoVal (strtoCore l.render) = l.val := by
+  rw [strtoCore_render l h]
+  unfold strtoVal Lit.val
+  by_cases hs : l.sign = .minus <;> simp [hs]
+
+/-- signed getters: the value when the type can represent it, a conversion error otherwise -/
+theorem getSigned_render (l : Lit) (h : l.body.WF) (llo lhi lo hi : Int) (h1 : llo ≤ lo) (h2 : hi ≤ lhi) :
+    getSigned llo lhi lo hi l.render =
+      if lo ≤ l.val ∧ l.val ≤ hi then .ok l.val else .error .valueConversionError := by
+  unfold getSigned
+  have hv := strtoVal_render l h
+  have hc : (strtoCore l.render).converted = true := by rw [strtoCore_render l h]
+  simp only [hv, hc, Bool.not_true, Bool.false_eq_true, if_false]
+  by_cases ha : l.val < llo
+  · have : ¬ (lo ≤ l.val ∧ l.val ≤ hi) := by omega
+    simp [ha, this]
+  · by_cases hb : l.val > lhi
+    · have : ¬ (lo ≤ l.val ∧ l.val ≤ hi) := by omega
+      simp [ha, hb, this]
+    · by_cases hc1 : l.val < lo
+      · have : ¬ (lo ≤ l.val ∧ l.val ≤ hi) := by omega
+        simp [ha, hb, hc1, this]
+      · by_cases hd : l.val > hi
+        · have : ¬ (lo ≤ l.val ∧ l.val ≤ hi) := by omega
+          simp [ha, hb, hc1, hd, this]
+        · have : lo ≤ l.val ∧ l.val ≤ hi := by omega
+          simp [ha, hb, hc1, hd, this]
+
+theorem C09_int32 (l : Lit) (h : l.body.WF) :
+    getInt32 l.render = if I32MIN ≤ l.val ∧ l.val ≤ I32MAX then .ok l.val else .error .valueConversionError :=
+  getSigned_render l h _ _ _ _ (by decide) (by decide)
+
+theorem C09_int64 (l : Lit) (h : l.body.WF) :
+    getInt64 l.render = if I64MIN ≤ l.val ∧ l.val ≤ I64MAX then .ok l.val else .error .valueConversionError :=
+  getSigned_render l h _ _ _ _ (by decide) (by decide)
+
+/-- unsigned getters: never a wrapped value for a negative literal, never a truncated one -/
+theorem getUnsigned_render (l : Lit) (h : l.body.WF) (lmax max : Nat) (hm : max ≤ lmax) :
+    getUnsigned lmax max l.render =
+      if 0 ≤ l.val ∧ l.val ≤ (max : Int) then .ok l.val.toNat else .error .valueConversionError := by
+  unfold getUnsigned
+  rw [strtoCore_render l h]
+  unfold Lit.val
+  simp only [Bool.not_true, Bool.false_eq_true, if_false]
+  by_cases hs : l.sign = .minus
+  · simp only [hs, decide_true, if_true, Bool.true_and]
+    by_cases hz : l.body.mag = 0
+    · simp [hz]
+    · have hneg : ¬ (0 ≤ -(l.body.mag : Int) ∧ -(l.body.mag : Int) ≤ (max : Int)) := by omega
+      by_cases hbig : l.body.mag > lmax
+      · simp [hbig, hneg, hz]
+      · simp [hbig, hz, hneg]
+  · simp only [hs, decide_false, if_false, Bool.false_and, Bool.false_eq_true]
+    by_cases hbig : l.body.mag > lmax
+    · have : ¬ ((l.body.mag : Int) ≤ (max : Int)) := by omega
+      simp [hbig, this]
+    · by_cases hb2 : l.body.mag > max
+      · have : ¬ ((l.body.mag : Int) ≤ (max : Int)) := by omega
+        simp [hbig, hb2, this]
+      · have : (l.body.mag : Int) ≤ (max : Int) := by omega
+        simp [hbig, hb2, this]
+
+theorem C09_uint32 (l : Lit) (h : l.body.WF) :
+    getUInt32 l.render = if 0 ≤ l.val ∧ l.val ≤ (U32MAX : Int) then .ok l.val.toNat else .error .valueConversionError :=
+  getUnsigned_render l h _ _ (by decide)
+
+theorem C09_uint64 (l : Lit) (h : l.body.WF) :
+    getUInt64 l.render = if 0 ≤ l.val ∧ l.val ≤ (U64MAX : Int) then .ok l.val.toNat else .error .valueConversionError :=
+  getUnsigned_render l h _ _ (by decide)
+
+/-! ### booleans -/
+
+def TRUE_WORDS : List Str := [[0x31], [0x79, 0x65, 0x73], [0x74, 0x72, 0x75, 0x65]]
+def FALSE_WORDS : List Str := [[0x30], [], [0x6e, 0x6f], [0x66, 0x61, 0x6c, 0x73, 0x65]]
+
+/-- the boolean getter succeeds exactly on 1/0, yes/no, true/false in any letter case and on
+    the empty text (false); every other text is refused — for all byte strings -/
+theorem C09_bool (s : Str) :
+    (getBool s = .ok true ↔ lower s ∈ TRUE_WORDS) ∧
+    (getBool s = .ok false ↔ lower s ∈ FALSE_WORDS) ∧
+    ((∃ e, getBool s = .error e) ↔ lower s ∉ TRUE_WORDS ∧ lower s ∉ FALSE_WORDS) := by
+  unfold getBool classifyBool TRUE_WORDS FALSE_WORDS
+  simp only [List.mem_cons, List.mem_nil_iff, or_false, List.isEmpty_iff]
+  by_cases h1 : lower s = [0x31]
+  · simp [h1]
+  · by_cases h2 : lower s = [0x79, 0x65, 0x73]
+    · simp [h2]
+    · by_cases h3 : lower s = [0x74, 0x72, 0x75, 0x65]
+      · simp [h3]
+      · by_cases h4 : lower s = [0x30]
+        · simp [h4]
+        · by_cases h5 : lower s = []
+          · simp [h5]
+          · by_cases h6 : lower s = [0x6e, 0x6f]
+            · simp [h6]
+            · by_cases h7 : lower s = [0x66, 0x61, 0x6c, 0x73, 0x65]
+              · simp [h7]
+              · simp only [h1, h2, h3, h4, h5, h6, h7, beq_iff_eq, or_self, if_false, false_or, Bool.false_or]
+                by_cases h8 : lower s = NONE
+                · simp [h8, NONE]
+                · simp [h1, h2, h3, h4, h5, h6, h7, h8]
+
+/-- a key that has no value: every typed getter answers with an error code -/
+theorem C09_novalue {α} (conv : Str → Except Err α) (kf : KeyFile) (g k : Option Str)
+    (h : getString kf g k = .ok none) : getTyped conv kf g k = .error .keyHasNullValue := by
+  unfold getTyped; rw [h]
+
+/-- non-vacuity: literals at the limits, in the three notations -/
+example :
+    let hexFFFFFFFF : Lit := ⟨.none, .hex false (15, true) (List.replicate 7 (15, false))⟩
+    let oct20000000000 : Lit := ⟨.plus, .oct ((2, false) :: List.replicate 10 (0, false))⟩
+    let minus1 : Lit := ⟨.minus, .dec (1, false) []⟩
+    hexFFFFFFFF.body.WF ∧ hexFFFFFFFF.val = 4294967295 ∧ oct20000000000.val = 2147483648 ∧ minus1.val = -1 ∧
+    hexFFFFFFFF.render = [0x30, 0x78, 0x46, 0x66, 0x66, 0x66, 0x66, 0x66, 0x66, 0x66] := by
+  refine ⟨⟨by decide, ?_⟩, by decide, by decide, by decide, by decide⟩
+  intro p hp
+  simp [List.mem_replicate] at hp
+  rw [hp]; decide
+
 end Econf
